@@ -176,6 +176,8 @@ class MultiTaskBCD(BaseSolver):
                             if max(self.verbose - 1, 0):
                                 print("Early exit")
                             break
+            p_obj = (datafit.value(Y, W[:n_features], XW) +
+                     penalty.value(W[:n_features]))
             obj_out.append(p_obj)
         return W, np.array(obj_out), stop_crit
 
